@@ -17,6 +17,7 @@ LEAN = os.path.join(VERIF, "lean")
 WORK = os.path.join(VERIF, ".work")
 EVID = os.path.join(VERIF, "evidence")
 REPLAYS = os.path.join(EVID, "replays")
+HARNESS_TIMEOUT = int(os.environ.get("RSP_HARNESS_TIMEOUT", "120"))
 ACCEPTED_AXIOMS = {"propext", "Classical.choice", "Quot.sound"}
 FORBIDDEN = re.compile(r"\b(sorry|admit|native_decide|bv_decide|implemented_by|unsafe )|^axiom |maxHeartbeats 0", re.M)
 
@@ -44,7 +45,16 @@ def _run_harness_chunk(exe, cases, env):
     while i < len(cases):
         batch = cases[i:]
         inp = "".join(l + "\n" for c in batch for l in c.lines)
-        p = subprocess.run([exe], input=inp, capture_output=True, text=True, env=env, errors="replace")
+        try:
+            p = subprocess.run([exe], input=inp, capture_output=True, text=True, env=env, errors="replace",
+                               timeout=HARNESS_TIMEOUT)
+        except subprocess.TimeoutExpired as te:
+            class _P:  # a hang is a result: the op after the last answered one never returned
+                pass
+            p = _P()
+            p.stdout = (te.stdout or b"").decode(errors="replace") if isinstance(te.stdout, bytes) else (te.stdout or "")
+            p.stderr = "HANG"
+            p.returncode = -999
         outs = p.stdout.split("\n")
         if outs and outs[-1] == "":
             outs.pop()
@@ -70,6 +80,8 @@ def _run_harness_chunk(exe, cases, env):
 
 
 def _san_summary(stderr, rc):
+    if rc == -999:
+        return 'hang@?'
     m = re.search(r"ERROR: AddressSanitizer: ([\w-]+)", stderr)
     kind = m.group(1) if m else None
     if not kind:
